@@ -60,3 +60,12 @@ Print Assumptions C17_sort_canonical.
 Theorem C17_example : accepts ex_o ex_d /\ distinct_keys ex_o ex_d /\ dict_perm ex_d ex_d'.
 Proof. exact ex_accepted. Qed.
 Print Assumptions C17_example.
+
+(* named value constants: each comes from a VALUE line of that attribute, every declared number gets one, none twice *)
+Theorem C17_value_constants : forall a vals,
+  let vs := values_of_attr a (sort value_lt vals) in
+  (forall w, In w vs -> In w vals /\ gl_attr w = ga_name a) /\
+  (forall v, In v vals -> gl_attr v = ga_name a -> exists w, In w vs /\ gl_num w = gl_num v) /\
+  NoDup (map gl_num vs).
+Proof. exact value_constants. Qed.
+Print Assumptions C17_value_constants.
